@@ -237,7 +237,7 @@ namespace Givaro {
         }
         else {
             neg(R, P);
-            _domain.add(R[0],Val, P[0]);
+            _domain.sub(R[0],Val, P[0]);
         }
         return R;
     }
